@@ -5,9 +5,10 @@
 //! `is_authorized_json` answer for the currently registered objects, and be a "not found"
 //! failure naming the missing object when the name was never registered.
 //!  (a) BFS to fixpoint over model states (81), every one of the 36 operations in every state;
-//!      after each transition the whole cache is observed through all 24 stateful queries, and
-//!      after every registering operation a second thread (started while the first is still
-//!      alive) must see an empty cache;
+//!      after each transition (a query included: a query must not change the cache) the whole
+//!      cache is observed through all 24 stateful queries, and in every state a second thread,
+//!      started while the first is still alive and holds its registrations, must see an empty
+//!      cache;
 //!  (b) every sequence of the 12 registering operations of length 1..=d (no pruning: includes
 //!      re-registration under the same name and failed preparses in every position), each in a
 //!      fresh thread, with the full observation at the end.
@@ -96,6 +97,23 @@ fn request_fields(m: &mut serde_json::Map<String, J>, req: u8, with_schema: bool
     if let Some(b) = vr {
         m.insert("validateRequest".into(), json!(b));
     }
+}
+
+/// the 24 stateful call documents, built once
+fn stateful_call_cached(pset: u8, schema: Option<u8>, req: u8) -> J {
+    static DOCS: std::sync::OnceLock<HashMap<(u8, Option<u8>, u8), J>> = std::sync::OnceLock::new();
+    DOCS.get_or_init(|| {
+        let mut m = HashMap::new();
+        for p in 0..2u8 {
+            for s in [None, Some(0u8), Some(1u8)] {
+                for r in 0..4u8 {
+                    m.insert((p, s, r), stateful_call(p, s, r));
+                }
+            }
+        }
+        m
+    })[&(pset, schema, req)]
+        .clone()
 }
 
 pub fn stateful_call(pset: u8, schema: Option<u8>, req: u8) -> J {
@@ -188,7 +206,7 @@ pub fn exec(op: &Op) -> Obs {
             },
             Err(e) => Obs::Broken(format!("schema document rejected: {e}")),
         },
-        Op::Auth { pset, schema, req } => match serde_json::from_value::<ffi::StatefulAuthorizationCall>(stateful_call(*pset, *schema, *req)) {
+        Op::Auth { pset, schema, req } => match serde_json::from_value::<ffi::StatefulAuthorizationCall>(stateful_call_cached(*pset, *schema, *req)) {
             Ok(c) => match serde_json::to_value(ffi::stateful_is_authorized(c)) {
                 Ok(v) => Obs::Auth(canon_auth(&v)),
                 Err(e) => Obs::Broken(format!("answer does not serialise: {e}")),
@@ -356,6 +374,46 @@ fn run_history(history: Vec<Op>, second: bool) -> Result<(Vec<Obs>, Vec<Obs>, Op
     Ok((res, obs, other))
 }
 
+/// Run `history` in a fresh thread, then every query, each followed by the full observation
+/// (a query must not change the cache).
+fn run_queries(history: Vec<Op>) -> Result<(Vec<Obs>, Vec<(Obs, Vec<Obs>)>), String> {
+    let h = std::thread::Builder::new()
+        .name("c19-cache-queries".into())
+        .spawn(move || {
+            let res: Vec<Obs> = history.iter().map(exec).collect();
+            let qs: Vec<(Obs, Vec<Obs>)> = queries().iter().map(|q| (exec(q), observe_all())).collect();
+            (res, qs)
+        })
+        .map_err(|e| format!("cannot spawn thread: {e}"))?;
+    h.join().map_err(|_| "query thread panicked".to_string())
+}
+
+/// every query in the state reached by `history` (which the model says is `m`)
+fn check_queries(history: &[Op], m: &Model, table: &Table) -> Result<Vec<(Vec<Op>, String, String)>, String> {
+    let (res, qs) = run_queries(history.to_vec())?;
+    let mut bad = Vec::new();
+    let mut mm = Model::default();
+    for (i, (op, o)) in history.iter().zip(&res).enumerate() {
+        let (m2, exp) = mm.step(op);
+        if let Some((k, what)) = judge(&exp, o, table) {
+            bad.push((history.to_vec(), format!("cache:{k}:bfs:{}", op_kind(op)), format!("history {history:?}, step {i} ({op:?}) from model {mm:?}: {what}")));
+        }
+        mm = m2;
+    }
+    for (q, (o, after)) in queries().iter().zip(&qs) {
+        let mut h = history.to_vec();
+        h.push(*q);
+        let (_, exp) = m.step(q);
+        if let Some((k, what)) = judge(&exp, o, table) {
+            bad.push((h.clone(), format!("cache:{k}:bfs:{}", op_kind(q)), format!("history {h:?} from model {m:?}: {what}")));
+        }
+        for (fp, what) in judge_observation(m, after, table, "bfs:after-query") {
+            bad.push((h.clone(), fp, format!("history {h:?}: {what}")));
+        }
+    }
+    Ok(bad)
+}
+
 /// lock-step check of one history; returns (violations, final model)
 fn check_history(history: &[Op], table: &Table, second: bool, tag: &str) -> Result<(Vec<(String, String)>, Model), String> {
     let (res, obs, other) = run_history(history.to_vec(), second)?;
@@ -411,6 +469,7 @@ pub fn run(ctx: &Ctx, tier: Tier) -> Result<(), String> {
     }
     ctx.set_info("cache_distinct_stateless_answers", json!(distinct.len()));
     let ops = all_ops();
+    let mops_all = mutating_ops();
     let report = |history: &[Op], bad: Vec<(String, String)>| {
         for (fp, what) in bad {
             ctx.violation(fp, what, json!({"kind": "cache", "history": history}));
@@ -424,31 +483,50 @@ pub fn run(ctx: &Ctx, tier: Tier) -> Result<(), String> {
     let mut transitions = 0u64;
     while !frontier.is_empty() {
         let level: Vec<Model> = frontier.drain(..).collect();
-        let work: Vec<(Model, Vec<Op>, Op)> = level.iter().flat_map(|m| ops.iter().map(|op| (*m, seen[m].clone(), *op)).collect::<Vec<_>>()).collect();
-        let results: Vec<Result<(Model, Vec<Op>, Model), String>> = work
+        let work: Vec<(Model, Vec<Op>, Option<Op>)> = level.iter().flat_map(|m| mops_all.iter().map(|op| (*m, seen[m].clone(), Some(*op))).chain(std::iter::once((*m, seen[m].clone(), None))).collect::<Vec<_>>()).collect();
+        let results: Vec<Result<Option<(Vec<Op>, Model)>, String>> = work
             .par_iter()
-            .map(|(m, hist, op)| {
-                let mut h = hist.clone();
-                h.push(*op);
-                // the second-thread check follows every registering operation
-                let second = !matches!(op, Op::Auth { .. });
-                let (bad, m_after) = check_history(&h, &table, second, "bfs")?;
-                let (m_expected, _) = m.step(op);
-                let mut l = Local::default();
-                l.case(hash_of(&("bfs", m, op)), &format!("cache:{}", op_kind(op)), *m != Model::default());
-                l.transitions += 1 + 24 + if second { 24 } else { 0 };
-                ctx.merge(l);
-                report(&h, bad);
-                debug_assert_eq!(m_after, m_expected);
-                Ok((*m, h, m_expected))
+            .map(|(m, hist, op)| match op {
+                Some(op) => {
+                    let mut h = hist.clone();
+                    h.push(*op);
+                    // a second thread looks at its own cache after the first registering operation of every state
+                    let second = *op == mops_all[0];
+                    let (bad, m_after) = check_history(&h, &table, second, "bfs")?;
+                    let (m_expected, _) = m.step(op);
+                    let mut l = Local::default();
+                    l.case(hash_of(&("bfs", m, op)), &format!("cache:{}", op_kind(op)), *m != Model::default());
+                    l.transitions += 1 + 24 + if second { 24 } else { 0 };
+                    ctx.merge(l);
+                    report(&h, bad);
+                    debug_assert_eq!(m_after, m_expected);
+                    Ok(Some((h, m_expected)))
+                }
+                None => {
+                    let bad = check_queries(hist, m, &table)?;
+                    let mut l = Local::default();
+                    for q in queries() {
+                        l.case(hash_of(&("bfs", m, q)), "cache:stateful_is_authorized", *m != Model::default());
+                    }
+                    l.transitions += 24 * 25;
+                    ctx.merge(l);
+                    for (h, fp, what) in bad {
+                        ctx.violation(fp, what, json!({"kind": "cache", "history": h}));
+                    }
+                    Ok(None)
+                }
             })
             .collect();
         for r in results {
-            let (_, h, m2) = r?;
-            transitions += 1;
-            if !seen.contains_key(&m2) {
-                seen.insert(m2, h);
-                frontier.push_back(m2);
+            match r? {
+                Some((h, m2)) => {
+                    transitions += 1;
+                    if !seen.contains_key(&m2) {
+                        seen.insert(m2, h);
+                        frontier.push_back(m2);
+                    }
+                }
+                None => transitions += 24,
             }
         }
         if !frontier.is_empty() {
